@@ -26,6 +26,9 @@ type GovSpec struct {
 	// Msg, if set, is an arbitrary message executed by the proposal with the gov module account
 	// as its acting party (e.g. a purchase order raised by governance); Kind/Params are ignored
 	Msg *model.Msg
+	// Txs, if set, are ordinary transactions delivered in the proposal's first block, before the
+	// submission (so that a decision and a parameter change take effect around the same block begin)
+	Txs func(m *model.State) []model.Tx
 }
 
 // Action is one letter of a scenario alphabet: one block (time step + transactions), or a
@@ -425,6 +428,16 @@ func (e *Exec) runGov(a *Action, obs *StepObs, discs *[]Disc) {
 	if halted {
 		obs.Halted = true
 		return
+	}
+	if g.Txs != nil {
+		for _, tx := range g.Txs(m) {
+			to, d, div := e.deliver(tx)
+			obs.Txs = append(obs.Txs, to)
+			*discs = append(*discs, d...)
+			if div {
+				obs.Diverged = true
+			}
+		}
 	}
 	im := model.Msg{Kind: g.Kind, From: model.ModGov, Params: g.Params}
 	if g.Msg != nil {
